@@ -14,7 +14,7 @@ import (
 )
 
 func init() {
-	register("C11", checkC11, "isBitSet is abstractly interpreted for all payloads, start addresses and queried addresses. R11.1: the byte index and bit mask of the bit test it returns are extracted from SSA (value identity, not spelling) and must equal the specification's layout byte (i div 8), bit (i mod 8) for i = address-start, with the subtraction proven exact under the guard (rule W). R11.2: the same pair extracted from CoilsToBytes (the store guarded by coils[j], for the loop counter j proven to range over 0..len-1) must be the same function of the coil offset. R11.3: success returns entail start <= address and i < 8*len(payload); every error return is infeasible for an in-range address; the byte index is proven in bounds. R11.4: IsCoilSet/IsInputSet pass (payload, start, address) unchanged. The write/read-back relation follows from R11.1+R11.2+R1.4 for all patterns; nothing is executed. R11.4 additionally: every return of a wrapper either forwards isBitSet's results or is unreachable for an address inside the reply. R11.5 the installed exception recognisers cannot claim coil data as an exception (recogniser and parser of one framing). R11.6 the reply a caller holds is a fresh copy of a call-local receive buffer. R11.7 = C01 R1.1 for the FC15 request encoders: the packed coil bytes reach the wire unchanged. R11.8 = C05 R5.2 for the coil path (IsCoilSet is invoked on the response handed to the extraction, with request start and field address).")
+	register("C11", checkC11, "isBitSet is abstractly interpreted for all payloads, start addresses and queried addresses. R11.1: the byte index and bit mask of the bit test it returns are extracted from SSA (value identity, not spelling) and must equal the specification's layout byte (i div 8), bit (i mod 8) for i = address-start, with the subtraction proven exact under the guard (rule W). R11.2: the same pair extracted from CoilsToBytes (the store guarded by coils[j], for the loop counter j proven to range over 0..len-1) must be the same function of the coil offset. R11.3: success returns entail start <= address and i < 8*len(payload); every error return is infeasible for an in-range address; the byte index is proven in bounds. R11.4: IsCoilSet/IsInputSet pass (payload, start, address) unchanged. The write/read-back relation follows from R11.1+R11.2+R1.4 for all patterns; nothing is executed. R11.4 additionally: every return of a wrapper either forwards isBitSet's results or is unreachable for an address inside the reply. R11.5 the installed exception recognisers cannot claim coil data as an exception (recogniser and parser of one framing). R11.6 the reply a caller holds is a fresh copy of a call-local receive buffer. R11.7 = C01 R1.1 for the FC15 request encoders: the packed coil bytes reach the wire unchanged. R11.8 = C05 R5.2 for the coil path (IsCoilSet is invoked on the response handed to the extraction, with request start and field address). R11.9 = C13 R13.4 for the coil reply types (types with IsCoilSet/IsInputSet and the structs they embed).")
 }
 
 // stripConv follows integer conversions.
